@@ -142,7 +142,8 @@ def run(tier, seed):
     # ------------------------------------------------------------ stream 2: the binary, every cut position
     tmp = core.scratch_dir("c18")
     jobs = []
-    MODES = [["check", "all", "its"], ["check", "sanity", "its"], ["check", "all"], ["check", "sanity"], ["view", "rdh"], ["check", "all", "its-stave"]]
+    MODES = [["check", "all", "its"], ["check", "sanity", "its"], ["check", "all"], ["check", "sanity"], ["view", "rdh"], ["check", "all", "its-stave"],
+             ["view", "its-readout-frames"], ["view", "its-readout-frames-data"]]
     ncli = 5 if deep else 3
     for s in range(ncli):
         pkts, per = streams.conforming(rng, nlinks=rng.choice([1, 2]), nhbf=1, stave_level=True)
@@ -160,7 +161,7 @@ def run(tier, seed):
         step = 2 if deep else 7
         ks = sorted(set(list(range(0, 12)) + list(range(12, len(data), step)) + [o + d for o in offs for d in (-1, 0, 1, 63, 64, 65)] + [len(data) - 1]))
         ks = [k for k in ks if 0 <= k < len(data)]
-        for mode in (MODES if deep else rng.sample(MODES, 3)):
+        for mode in (MODES if deep else rng.sample(MODES[:6], 3) + [rng.choice(MODES[6:])]):
             jobs.append({"s": s, "k": len(data), "mode": mode, "data": data, "pkts": pkts, "inp": "file", "full": True})
             for k in ks:
                 jobs.append({"s": s, "k": k, "mode": mode, "data": data[:k], "pkts": pkts, "inp": rng.choice(["file", "pipe"]), "full": False})
@@ -215,6 +216,8 @@ def run(tier, seed):
             limit = offc + 64 + (len(j["pkts"][ncomp][1]) if ncomp < len(j["pkts"]) else 0)
             if any(x[0] > limit for x in later):
                 chk.spec_violations.append(dict(desc, later=later[:10], what="message located beyond the incomplete final packet"))
+        elif j["mode"][1] != "rdh":
+            pass        # frame views of a cut input: judged on `ends normally, no panic` above (their rows are C19's matter)
         else:
             rows_c = [l for l in ANSI.sub("", so).split("\n") if re.match(r"^\s*[0-9A-F]+:", l)]
             rows_f = [l for l in ANSI.sub("", fso).split("\n") if re.match(r"^\s*[0-9A-F]+:", l)]
